@@ -27,7 +27,7 @@ var hostPool = []string{
 	"example.com", "foo.com", "barfoo.com", "bar.com", "oo.com", "a.foo.com", "b.a.foo.com", "foo.com.",
 	"example.org", "sub.example.com", "deep.sub.example.com", "xample.com", "com", "co.uk", "github.io",
 	"foo.github.io", "localhost", "localhost.", "a.localhost", "kubernetes.default.svc", "foo_bar.example.com",
-	"a-b.example.com", "1a.example.com", "example.c0m", "a.b.c.d.e.f", "m", "mm.m", "xn--bcher-kva.example",
+	"a-b.example.com", "1a.example.com", "example.c0m", "0x7f000001", "127.0.0.0x1", "10.0.0.0x1", "1.2.3.4a", "example.0x50", "1-2.3-4", "a.b.c.d.e.f", "m", "mm.m", "xn--bcher-kva.example",
 	"xn--nxasmq6b.example.", "xn--a.example", "ab--c.example", "127.0.0.1", "127.0.0.2", "10.0.0.1", "192.168.1.1",
 	"255.255.255.255", "1.2.3.4", "169.254.169.254", "[::1]", "[2001:db8::1]", "[2001:db8:aaaa:1111::100]", "[::]",
 	"[fe80::1]", "[1:2:3:4:5:6:7:8]",
